@@ -1033,7 +1033,7 @@ Proof.
         intros s0 H0; change (nth_error (g_ws g1) w = Some s0) in H0; rewrite Hs1 in H0; inversion H0; subst s0; simpl; rewrite Hpc; auto.
   - (* commit *) unfold do_commit. apply Jw_ev. apply Jw_dead. intros s0 H0. simpl in H0.
     rewrite nth_upd_same, nth_clear, Hs in H0. simpl in H0. inversion H0; subst s0. left. destruct (owner_is _ _); reflexivity.
-  - (* rollback *) unfold do_rollback. apply Jw_ev. destruct (w_err s) as [[]|]; try destruct (w_retry s);
+  - (* rollback *) unfold do_rollback. apply Jw_ev. destruct (w_err s) as [[]|]; destruct (w_retry s); destruct (String.eqb (o_ik (w_op s)) "");
       apply Jw_dead; intros s0 H0; simpl in H0; rewrite nth_upd_same, nth_clear, Hs in H0; simpl in H0; inversion H0; subst s0; simpl;
       first [left; reflexivity | right; left; reflexivity].
   - (* fetch *) unfold do_fetch. apply Jw_ev. brk; apply Jw_upd; auto; upd_side.
@@ -1267,8 +1267,8 @@ Proof.
       assert (Hs1 : nth_error (g_ws g1) w = Some (wset_logid s (Some (g_nlog g)))) by (unfold g1; simpl; rewrite nth_upd_same, Hs; reflexivity).
       brk; try (apply Pg_blocked; auto); try (apply Pg_ev; apply Pg_fail_abort; auto); pg_step g1 w Hs1 Pc.
   - unfold do_commit. unfold Pg; simpl. apply Pw_upd; [apply Pw_clear; auto|pg_side].
-  - unfold do_rollback. unfold Pg. destruct (w_err s) as [[]|]; try destruct (w_retry s); simpl;
-      (apply Pw_upd; [apply Pw_clear; auto|]); intros s0 H0; simpl; (split; [reflexivity|]); intros a0 Ha0 _ _; split; simpl; try discriminate;
+  - unfold do_rollback. unfold Pg. destruct (w_err s) as [[]|]; destruct (w_retry s); destruct (String.eqb (o_ik (w_op s)) ""); simpl;
+      (apply Pw_upd; [apply Pw_clear; auto|]); intros s0 H0; simpl; (split; [reflexivity|]); intros a0 Ha0 Hn0 Hc0; split; simpl; auto; try discriminate;
       intros Hc; apply start_pc_crit in Hc; congruence.
   - unfold do_fetch. unfold Pg. brk; simpl; apply Pw_upd; auto; pg_side.
   - exact HP.
